@@ -19,6 +19,56 @@ use crate::runner::{Args, CaseReport, Failure, Mode, RunPlan, Spec, Tier, drive}
 use crate::storemodel as sm;
 use crate::world::scratch_dir;
 
+/// (root of /verif, tier name, seed) for the one verdict that cannot go through the runner: a
+/// proven deadlock leaves threads that can never be joined, so the process has to end there
+static RUN_CTX: std::sync::OnceLock<(std::path::PathBuf, String, u64)> = std::sync::OnceLock::new();
+
+/// (state, utime + stime) of a thread of this process, from /proc
+fn thread_stat(tid: i32) -> Option<(char, u64)> {
+    let txt = std::fs::read_to_string(format!("/proc/self/task/{tid}/stat")).ok()?;
+    let rest = &txt[txt.rfind(')')? + 2..];
+    let f: Vec<&str> = rest.split_whitespace().collect();
+    let state = f.first()?.chars().next()?;
+    let utime: u64 = f.get(11)?.parse().ok()?;
+    let stime: u64 = f.get(12)?.parse().ok()?;
+    Some((state, utime + stime))
+}
+
+/// Sound deadlock verdict: every unfinished stress thread is parked (state S) and has not used
+/// a single clock tick of CPU over `samples` observations 200 ms apart. A slow machine shows
+/// runnable threads or growing CPU time instead; SQLite's lock retries time out long before.
+fn all_parked(tids: &[i32], samples: usize) -> bool {
+    let first: Vec<Option<(char, u64)>> = tids.iter().map(|t| thread_stat(*t)).collect();
+    if first.iter().any(|s| !matches!(s, Some(('S', _)))) {
+        return false;
+    }
+    for _ in 0..samples {
+        std::thread::sleep(std::time::Duration::from_millis(200));
+        for (t, f) in tids.iter().zip(first.iter()) {
+            match (thread_stat(*t), f) {
+                (Some(('S', cpu)), Some((_, cpu0))) if cpu == *cpu0 => {}
+                _ => return false,
+            }
+        }
+    }
+    true
+}
+
+fn report_deadlock(case: &Case, detail: &str) -> ! {
+    use std::hash::{Hash, Hasher};
+    let (root, tier, seed) = RUN_CTX.get().cloned().unwrap_or((std::path::PathBuf::from("/verif"), "quick".into(), 0));
+    let mut h = std::collections::hash_map::DefaultHasher::new();
+    case.hash(&mut h);
+    let dir = root.join("replays").join("C19");
+    let _ = std::fs::create_dir_all(&dir);
+    let path = dir.join(format!("{tier}-seed{seed}-deadlock-{:016x}.json", h.finish()));
+    let v = serde_json::json!({"property": "C19", "clause": "deadlock", "detail": detail, "case": case, "tier": tier, "seed": seed});
+    let _ = std::fs::write(&path, serde_json::to_string_pretty(&v).unwrap_or_default());
+    println!("violated clause: deadlock — {detail}");
+    println!("VIOLATION property=C19 replay={}", path.display());
+    std::process::exit(1);
+}
+
 #[derive(Clone, Debug, PartialEq, Eq, Hash, Serialize, Deserialize)]
 pub struct Case {
     pub sqlite: bool,
@@ -136,6 +186,9 @@ fn stress<S: MdkStorageProvider + Sync>(st: &S, case: &Case, rep: &mut CaseRepor
     let reads = Arc::new(AtomicU64::new(0));
     let yields = case.yields.clone();
     let finished = Arc::new(AtomicU64::new(0));
+    let progress = Arc::new(AtomicU64::new(0));
+    let tids: Arc<std::sync::Mutex<Vec<(usize, i32)>>> = Arc::new(std::sync::Mutex::new(vec![]));
+    let finished_flags: Arc<Vec<AtomicBool>> = Arc::new((0..n_threads).map(|_| AtomicBool::new(false)).collect());
     let (tx, rx) = std::sync::mpsc::channel::<()>();
     let panicked = std::thread::scope(|s| {
         let mut handles = vec![];
@@ -149,7 +202,11 @@ fn stress<S: MdkStorageProvider + Sync>(st: &S, case: &Case, rep: &mut CaseRepor
             let ypat = yields.get(t % yields.len().max(1)).copied().unwrap_or(0);
             let finished = finished.clone();
             let tx = tx.clone();
+            let progress = progress.clone();
+            let tids = tids.clone();
+            let finished_flags = finished_flags.clone();
             handles.push(s.spawn(move || {
+                tids.lock().unwrap().push((t, unsafe { libc::syscall(libc::SYS_gettid) } as i32));
                 if ypat > 0 {
                     // yield points at SQLite storage ticks
                     let c = std::cell::Cell::new(0u32);
@@ -166,6 +223,7 @@ fn stress<S: MdkStorageProvider + Sync>(st: &S, case: &Case, rep: &mut CaseRepor
                     // ---- the single writer of group t: record, relays, secret, message - in this order
                     let g = t as u8;
                     for v in 1..=cycles {
+                        progress.fetch_add(1, Ordering::Relaxed);
                         if st.save_group(record(g, v)).is_err() {
                             report("write-failed", format!("save_group g{g} v{v}"));
                         }
@@ -192,6 +250,7 @@ fn stress<S: MdkStorageProvider + Sync>(st: &S, case: &Case, rep: &mut CaseRepor
                     while !done.load(Ordering::SeqCst) {
                         let g = (i % groups as usize) as u8;
                         i += 1;
+                        progress.fetch_add(1, Ordering::Relaxed);
                         let mut seen = |what: &'static str, v: u64| {
                             let e = last.entry((g, what)).or_insert(0);
                             if v < *e {
@@ -250,6 +309,7 @@ fn stress<S: MdkStorageProvider + Sync>(st: &S, case: &Case, rep: &mut CaseRepor
                     while !done.load(Ordering::SeqCst) && k < 40 {
                         let g = ((t + k) % groups as usize) as u8;
                         let name = format!("t{t}-k{k}");
+                        progress.fetch_add(1, Ordering::Relaxed);
                         if st.create_group_snapshot(&gid(g), &name).is_ok() {
                             snap_names.lock().unwrap().push((g, name));
                         } else {
@@ -261,19 +321,50 @@ fn stress<S: MdkStorageProvider + Sync>(st: &S, case: &Case, rep: &mut CaseRepor
                 }
                 mdk_sqlite_storage::verif::set_tick_handler(None);
                 finished.fetch_add(1, Ordering::SeqCst);
+                finished_flags[t].store(true, Ordering::SeqCst);
                 let _ = tx.send(());
             }));
         }
         drop(tx);
-        // watchdog: a hang is an infrastructure verdict (exit 2), never a violation
-        let deadline = std::time::Instant::now() + std::time::Duration::from_secs(60);
+        // watchdog. "Nothing deadlocks" is part of the property, so a *proven* deadlock (no
+        // progress for 20 s while every unfinished thread is parked and burns no CPU at all) is a
+        // violation; any other hang (slow machine, livelock, unknown) is exit 2, inconclusive.
+        let started = std::time::Instant::now();
         let mut got = 0;
+        let mut last_progress = (progress.load(Ordering::Relaxed), std::time::Instant::now());
         while got < n_threads {
-            match rx.recv_timeout(deadline.saturating_duration_since(std::time::Instant::now())) {
-                Ok(()) => got += 1,
+            match rx.recv_timeout(std::time::Duration::from_secs(1)) {
+                Ok(()) => {
+                    got += 1;
+                    last_progress.1 = std::time::Instant::now();
+                }
                 Err(std::sync::mpsc::RecvTimeoutError::Timeout) => {
-                    println!("inconclusive: watchdog - {} of {n_threads} threads still running after 60 s (possible deadlock) in case {case:?}", n_threads - got);
-                    std::process::exit(2);
+                    let p = progress.load(Ordering::Relaxed);
+                    if p != last_progress.0 {
+                        last_progress = (p, std::time::Instant::now());
+                    }
+                    if last_progress.1.elapsed().as_secs() >= 20 {
+                        let stuck: Vec<(usize, i32)> =
+                            tids.lock().unwrap().iter().filter(|(t, _)| !finished_flags[*t].load(Ordering::SeqCst)).cloned().collect();
+                        let ids: Vec<i32> = stuck.iter().map(|(_, tid)| *tid).collect();
+                        if !ids.is_empty() && all_parked(&ids, 15) && progress.load(Ordering::Relaxed) == last_progress.0 {
+                            let role = |t: usize| if t < groups as usize { "writer" } else if t < groups as usize + readers { "reader" } else { "snapshotter" };
+                            let who = stuck.iter().map(|(t, _)| format!("{}#{t}", role(*t))).collect::<Vec<_>>().join(", ");
+                            report_deadlock(
+                                case,
+                                &format!(
+                                    "{} of {n_threads} threads sharing one {} storage instance made no progress for {} s, all of them parked without using any CPU: {who}; case {case:?}",
+                                    stuck.len(),
+                                    if case.sqlite { "SQLite" } else { "memory" },
+                                    last_progress.1.elapsed().as_secs()
+                                ),
+                            );
+                        }
+                    }
+                    if started.elapsed().as_secs() >= 150 {
+                        println!("inconclusive: watchdog - {} of {n_threads} threads still running after 150 s (not a proven deadlock: threads runnable or using CPU) in case {case:?}", n_threads - got);
+                        std::process::exit(2);
+                    }
                 }
                 Err(_) => break, // a thread died without reporting: its join below tells
             }
@@ -358,6 +449,7 @@ pub fn exec(case: &Case, _mode: Mode) -> Result<CaseReport, Failure> {
 }
 
 pub fn main(args: &Args) -> i32 {
+    let _ = RUN_CTX.set((args.root.clone(), args.tier.name().to_string(), args.seed));
     let (cases, max_cycles) = match args.tier {
         Tier::Quick => (160, 600u16),
         Tier::Thorough => (16 * 150, 3000u16),
@@ -365,7 +457,7 @@ pub fn main(args: &Args) -> i32 {
     let spec = Spec {
         id: "C19",
         level: "exploration",
-        rule: "randomised stress runs against a sequential specification: per group one writer thread repeats (save_group v, replace_group_relays v, save_group_exporter_secret v, every 8th cycle save_message) with the version embedded in every field and every relay URL; 0..8 reader threads check that every record / by-Nostr-id lookup / relay listing / secret is whole (one version, complete set), never goes backwards for a reader, that listings hold no duplicate or foreign message; 0..4 threads take snapshots of groups while they are written. Afterwards every snapshot is rolled back to and must show versions with record >= relays >= secret >= record-1 (the writer's program order: a state of one instant), other groups untouched. Thread counts 2..16, both backends, per-thread yield patterns at SQLite storage ticks; a watchdog turns a hang into exit 2. Non-trivial = at least two threads and at least one concurrent read; distinct = distinct cases".into(),
+        rule: "randomised stress runs against a sequential specification: per group one writer thread repeats (save_group v, replace_group_relays v, save_group_exporter_secret v, every 8th cycle save_message) with the version embedded in every field and every relay URL; 0..8 reader threads check that every record / by-Nostr-id lookup / relay listing / secret is whole (one version, complete set), never goes backwards for a reader, that listings hold no duplicate or foreign message; 0..4 threads take snapshots of groups while they are written. Afterwards every snapshot is rolled back to and must show versions with record >= relays >= secret >= record-1 (the writer's program order: a state of one instant), other groups untouched. Thread counts 2..16, both backends, per-thread yield patterns at SQLite storage ticks; a watchdog turns a proven deadlock (no progress for 20 s, every unfinished thread parked with zero CPU use) into a violation and any other hang into exit 2. Non-trivial = at least two threads and at least one concurrent read; distinct = distinct cases".into(),
         assumptions: vec![
             "schedule coverage is what the OS scheduler plus injected yields produce; a failure may need several runs to reproduce (the replay command runs a case 5 times)".into(),
             "concurrent first opens of one path are exercised in C13".into(),
